@@ -4,7 +4,7 @@ import json, os, shutil, sys, glob
 wt, pid = sys.argv[1], sys.argv[2]
 for pf in sorted(glob.glob(os.path.join(wt, 'seed_%s_*.patch' % pid))):
     i = os.path.basename(pf)[len('seed_%s_' % pid):-len('.patch')]
-    d = '/verif/seeded/%s_%s' % (pid, i)
+    d = "/verif/seeded/%s%s_%s" % (pid, os.environ.get("SEED_SUFFIX", ""), i)
     os.makedirs(d, exist_ok=True)
     shutil.copy(pf, os.path.join(d, 'patch.diff'))
     shutil.copy(os.path.join(wt, 'seed_%s_%s_demo.rs' % (pid, i)), os.path.join(d, 'demo.rs'))
